@@ -252,8 +252,13 @@ func runScenario(run *evid.Run, reg ociregistry.Interface, repo string, s *scena
 			log("PushBlob(another blob, whose digest the commit will quote)", perr)
 			held = perr == nil
 		}
+		if !held && (len(s.Content)+len(s.Parts))%4 == 2 {
+			// no digest at all is a wrong digest too
+			wrong = ""
+			run.Count("wrong_digest_commits_with_empty_digest", 1)
+		}
 		_, cerr := w.Commit(ociregistry.Digest(wrong))
-		log("Commit(wrong digest)", cerr)
+		log(fmt.Sprintf("Commit(wrong digest %q)", wrong), cerr)
 		run.Count("wrong_digest_commits", 1)
 		if held {
 			run.Count("wrong_digest_commits_quoting_a_held_blob", 1)
@@ -262,6 +267,9 @@ func runScenario(run *evid.Run, reg ociregistry.Interface, repo string, s *scena
 			bad("wrong-digest-committed", "Commit with a digest that is not the content's succeeded")
 		}
 		for name, d := range map[string]string{"wrong": wrong, "true": trueDigest} {
+			if d == "" {
+				continue
+			}
 			if held && name == "wrong" {
 				if data, gerr := readBlob(reg, repo, d); gerr != nil || !bytes.Equal(data, other) {
 					bad("wrong-digest-stored/held-blob-changed", fmt.Sprintf("after a failed commit quoting the digest of a held blob, that blob reads as %d bytes (err=%v); it had %d", len(data), gerr, len(other)))
@@ -815,5 +823,6 @@ func main() {
 	run.FloorCounter("wrong_offset_data_sent_by_commit", 10)
 	run.FloorCounter("wrong_digest_commits", 50)
 	run.FloorCounter("wrong_digest_commits_quoting_a_held_blob", 15)
+	run.FloorCounter("wrong_digest_commits_with_empty_digest", 10)
 	run.Finish()
 }
